@@ -34,9 +34,12 @@ enum Ev {
     Deliver(usize, usize),   // delta index, node
     Redeliver(usize, usize), // delta index, node
     Sync(usize, usize),      // from, to
+    /// node `.0` loses its whole state (a fresh actor with the same replica id) and is brought back by a full-state
+    /// sync from peer `.1` before it serves clients again
+    RestartSync(usize, usize),
 }
 
-fn alphabet(nodes: usize, ops: &[usize]) -> Vec<Ev> {
+fn alphabet(nodes: usize, ops: &[usize], with_restart: bool) -> Vec<Ev> {
     let mut v = Vec::new();
     for n in 0..nodes {
         for o in ops {
@@ -60,6 +63,13 @@ fn alphabet(nodes: usize, ops: &[usize]) -> Vec<Ev> {
             }
         }
     }
+    for i in 0..nodes {
+        for j in 0..nodes {
+            if i != j && with_restart {
+                v.push(Ev::RestartSync(i, j));
+            }
+        }
+    }
     v
 }
 
@@ -69,6 +79,7 @@ fn show_ev(e: &Ev) -> String {
         Ev::Deliver(m, n) => format!("deliver delta#{m} to node{n}"),
         Ev::Redeliver(m, n) => format!("redeliver delta#{m} to node{n}"),
         Ev::Sync(i, j) => format!("sync node{i} -> node{j}"),
+        Ev::RestartSync(n, i) => format!("node{n} restarts empty and resyncs from node{i}"),
     }
 }
 
@@ -81,6 +92,7 @@ struct World {
     delivered: BTreeSet<(usize, usize)>,
     redelivered: BTreeSet<(usize, usize)>,
     synced: BTreeSet<(usize, usize)>,
+    restarted: BTreeSet<usize>,
     client_ops: usize,
     produced_nothing: Vec<String>,
     /// per produced delta: the origin's complete replicated value of that key right after the write
@@ -103,6 +115,7 @@ impl World {
             delivered: BTreeSet::new(),
             redelivered: BTreeSet::new(),
             synced: BTreeSet::new(),
+            restarted: BTreeSet::new(),
             client_ops: 0,
             produced_nothing: Vec::new(),
             ideal: Vec::new(),
@@ -116,6 +129,14 @@ impl World {
             Ev::Deliver(m, n) => *m < self.deltas.len() && self.deltas[*m].0 != *n && !self.delivered.contains(&(*m, *n)),
             Ev::Redeliver(m, n) => self.delivered.contains(&(*m, *n)) && !self.redelivered.contains(&(*m, *n)),
             Ev::Sync(i, j) => !self.synced.contains(&(*i, *j)) && !self.deltas.is_empty(),
+            // one restart per history; the peer it resyncs from must hold every update the restarting node ever issued
+            // (a node that comes back knowing less than it once said has no way not to reuse a stamp — persistence, C08, is
+            // what prevents that in a deployment)
+            Ev::RestartSync(n, i) => {
+                self.restarted.is_empty()
+                    && !self.knows[*n].is_empty()
+                    && self.deltas.iter().enumerate().all(|(m, (origin, _, _))| origin != n || self.knows[*i].contains(&m))
+            }
         }
     }
 
@@ -156,6 +177,25 @@ impl World {
                     self.redelivered.insert((*m, *n));
                 }
                 self.knows[*n].insert(*m);
+            }
+            Ev::RestartSync(n, i) => {
+                self.nodes[*n] = ReplicatedShardActor::spawn(ReplicaId::new(*n as u64 + 1), ConsistencyLevel::Eventual, 0);
+                self.knows[*n].clear();
+                self.model[*n].clear();
+                self.restarted.insert(*n);
+                let snap = self.nodes[*i].get_snapshot().await;
+                let mut items: Vec<(String, redis_sim::replication::state::ReplicatedValue)> = snap.into_iter().collect();
+                items.sort_by(|a, b| a.0.cmp(&b.0));
+                for (k, v) in items {
+                    self.nodes[*n].apply_remote_delta(ReplicationDelta::new(k, v, ReplicaId::new(*i as u64 + 1)));
+                }
+                let _ = self.nodes[*n].get_snapshot().await;
+                self.model[*n] = self.model[*i].clone();
+                let src = self.knows[*i].clone();
+                // what the restarted node had received and the peer has not must be deliverable again
+                self.delivered.retain(|(m, node)| node != n || src.contains(m));
+                self.redelivered.retain(|(m, node)| node != n || src.contains(m));
+                self.knows[*n] = src;
             }
             Ev::Sync(i, j) => {
                 let snap = self.nodes[*i].get_snapshot().await;
@@ -356,7 +396,7 @@ fn run(nodes: usize, max_ops: usize, alpha: &[Ev], hist: &[u16], ev: u16) -> Opt
             for (i, (origin, d, _)) in w.deltas.iter().enumerate() {
                 fp.push_str(&format!("d{i}@{origin}:{}:{};", d.key, project(&d.value)));
             }
-            fp.push_str(&format!("del{:?}red{:?}syn{:?}kn{:?}", w.delivered, w.redelivered, w.synced, w.knows));
+            fp.push_str(&format!("del{:?}red{:?}syn{:?}kn{:?}rs{:?}", w.delivered, w.redelivered, w.synced, w.knows, w.restarted));
             Some(Ok(fp))
         })
     })
@@ -419,6 +459,7 @@ fn main() {
     // (nodes, client ops, op subset, depth)
     let all_ops: Vec<usize> = (0..OPS.len()).collect();
     let core_ops: Vec<usize> = vec![0, 1, 2, 4, 6, 9, 11, 13];
+    // a configuration whose op list is the full one also gets the restart-and-resync event
     let configs: Vec<(usize, usize, Vec<usize>, usize)> = if thorough {
         // last configuration: 4 client writes over {HSET one field, HINCRBY another, DEL}: a delta can meet a register of
         // the other type whose stamp lies between two hash writes of one node
@@ -497,7 +538,7 @@ fn main() {
         }
         let nodes = r["nodes"].as_u64().unwrap() as usize;
         let ops: Vec<usize> = r["ops"].as_array().unwrap().iter().map(|x| x.as_u64().unwrap() as usize).collect();
-        let alpha = alphabet(nodes, &ops);
+        let alpha = alphabet(nodes, &ops, r["with_restart"].as_bool().unwrap_or(false));
         let hist: Vec<u16> = r["history"].as_array().unwrap().iter().map(|x| x.as_u64().unwrap() as u16).collect();
         let ev = r["event"].as_u64().unwrap() as u16;
         match run(nodes, r["max_ops"].as_u64().unwrap() as usize, &alpha, &hist, ev) {
@@ -517,7 +558,8 @@ fn main() {
     let (mut states, mut transitions) = (0u64, 0u64);
     let mut exhaustive = true;
     for (nodes, max_ops, ops, depth) in &configs {
-        let alpha = alphabet(*nodes, ops);
+        let with_restart = thorough || ops.len() == OPS.len();
+        let alpha = alphabet(*nodes, ops, with_restart);
         let mut bfs = Bfs::new(alpha.len(), *depth);
         bfs.deadline = Some(Instant::now() + Duration::from_secs(if thorough { 900 } else { 120 }));
         let disabled = std::sync::atomic::AtomicU64::new(0);
@@ -528,7 +570,7 @@ fn main() {
             }
             Some(Ok(fp)) => Some(fp),
             Some(Err((sig, detail))) => {
-                rep.violation(sig, detail, json!({"nodes": nodes, "max_ops": max_ops, "ops": ops, "history": hist, "event": ev,
+                rep.violation(sig, detail, json!({"nodes": nodes, "max_ops": max_ops, "ops": ops, "with_restart": with_restart, "history": hist, "event": ev,
                     "shown": hist.iter().map(|h| show_ev(&alpha[*h as usize])).chain(std::iter::once(show_ev(&alpha[ev as usize]))).collect::<Vec<_>>()}));
                 None
             }
@@ -545,7 +587,7 @@ fn main() {
         }
         reports.push(json!({"nodes": nodes, "client_ops_bound": max_ops, "op_alphabet": ops.iter().map(|o| OPS[*o]).collect::<Vec<_>>(), "depth_bound": depth,
             "depth_completed": stats.depth_completed, "states": stats.states, "enabled_transitions": stats.transitions - dis,
-            "violating_transitions": stats.pruned_transitions - dis, "truncated_by_time_cap": stats.truncated, "frontier_sizes": stats.frontier_sizes}));
+            "violating_transitions": stats.pruned_transitions - dis, "truncated_by_time_cap": stats.truncated, "frontier_sizes": stats.frontier_sizes, "restart_and_resync_event": with_restart}));
     }
     // ---- part (c): whole nodes exchanging real gossip messages ----
     let cl_all: Vec<usize> = (0..cluster::CL_OPS.len()).collect();
@@ -697,7 +739,7 @@ fn main() {
         },
         "samples": [["node0: SET k a", "node1: HSET k f a", "deliver delta#0 to node1", "deliver delta#1 to node0"], ["node0: SET k e EX 100", "node1: SET k a", "sync node0 -> node1", "sync node1 -> node0"]],
         "exhaustive": exhaustive,
-        "rule": "BFS over events {client command on any node (18 commands on one key + a second key), delivery of any produced delta to any other node (any order), one re-delivery per (delta,node), one full-state sync per ordered node pair}; every state is reached by replaying its history on fresh real ReplicatedShardActors; in every state each node's client-visible reads (TYPE/GET/HGETALL/TTL) must equal the projection of its own replication snapshot; in states where every node has incorporated every produced delta all nodes must read alike, and for plain SET histories the agreed value is the write with the greatest (time, replica) stamp; states deduplicated on (per-node snapshot + reads, deltas, delivery/sync bookkeeping)",
+        "rule": "BFS over events {client command on any node (18 commands on one key + a second key), delivery of any produced delta to any other node (any order), one re-delivery per (delta,node), one full-state sync per ordered node pair, at most one restart of a node that loses its whole state and is resynced from a peer holding everything that node ever issued before it serves clients again}; every state is reached by replaying its history on fresh real ReplicatedShardActors; in every state each node's client-visible reads (TYPE/GET/HGETALL/TTL) must equal the projection of its own replication snapshot; in states where every node has incorporated every produced delta all nodes must read alike, and for plain SET histories the agreed value is the write with the greatest (time, replica) stamp; states deduplicated on (per-node snapshot + reads, deltas, delivery/sync bookkeeping)",
     });
     rep.finish(
         coverage,
